@@ -14,7 +14,7 @@ import (
 var DefaultInitPackages = []string{
 	"errors", "io", "internal/bytealg", "internal/cpu", "unicode", "unicode/utf8", "unicode/utf16", "strconv", "strings", "bytes", "math", "math/bits",
 	"sort", "slices", "encoding/base64", "encoding/binary", "encoding/hex", "net/textproto", "net/url", "net/http",
-	"context", "io/fs", "os", "syscall", "time",
+	"context", "io/fs", "os", "syscall", "time", "vendor/golang.org/x/net/http/httpguts", "golang.org/x/net/http/httpguts",
 	"google.golang.org/grpc/codes", "google.golang.org/grpc/metadata",
 	"google.golang.org/protobuf/encoding/protowire",
 	"google.golang.org/protobuf/reflect/protoreflect",
